@@ -186,6 +186,19 @@ func (w *c12World) apply(a c12Act) (ok bool, detail string) {
 		}
 		delete(w.temps, a.VM)
 		return true, ""
+	case "probe":
+		// use the name on that VM; a name that does not resolve goes through the autoload probe and fails
+		var src string
+		switch a.Kind {
+		case "class":
+			src = fmt.Sprintf("$o = new %s(); echo 'found';", a.Name)
+		case "iface":
+			src = fmt.Sprintf("echo interface_exists('%s', true) ? 'found' : 'missing';", a.Name)
+		default:
+			src = fmt.Sprintf("$r = %s(); echo 'found';", a.Name)
+		}
+		out, e := w.run(a.VM, src, fmt.Sprintf("/verif-virtual/c12/probe%d.zy", w.seq))
+		return e == "" && strings.HasSuffix(out, "found"), out + " " + e
 	case "define":
 		tag := fmt.Sprintf("%s@%s#%d", a.Name, a.VM, w.seq)
 		_, e := w.run(a.VM, c12Source(a.Kind, a.Name, tag), fmt.Sprintf("/verif-virtual/c12/def%d.zy", w.seq))
@@ -324,7 +337,7 @@ func C12(c *Ctx) *kf.Report {
 	maxDefs := c.Pick(3, 4)
 	depth := c.Pick(4, 5)
 	res := runTLC(rep, tlc.Run{SpecDir: c.SpecDir(), Module: "TempVM", Cfg: "TempVM.cfg",
-		Consts: map[string]string{"NAMES": `{"A","B"}`, "TEMPS": `{"t1","t2"}`, "MAXDEFS": fmt.Sprint(maxDefs), "HIST": "FALSE", "WALKLEN": "0"}})
+		Consts: map[string]string{"NAMES": `{"A","B"}`, "TEMPS": `{"t1","t2"}`, "MAXDEFS": fmt.Sprint(maxDefs), "HIST": "FALSE", "WALKLEN": "0", "PROBES": `{"class"}`}})
 	if res == nil {
 		return rep
 	}
@@ -435,7 +448,7 @@ func C12(c *Ctx) *kf.Report {
 	// seeded long walks from TLC -simulate with a history variable
 	walkLen := 40
 	sim := runTLC(rep, tlc.Run{SpecDir: c.SpecDir(), Module: "TempVM", Cfg: "TempVM.cfg", Workers: 1,
-		Consts:   map[string]string{"NAMES": `{"A","B","C","D","E","F","G","H"}`, "TEMPS": `{"t1","t2","t3","t4"}`, "MAXDEFS": "1000", "HIST": "TRUE", "WALKLEN": fmt.Sprint(walkLen)},
+		Consts:   map[string]string{"NAMES": `{"A","B","C","D","E","F","G","H"}`, "TEMPS": `{"t1","t2","t3","t4"}`, "MAXDEFS": "1000", "HIST": "TRUE", "WALKLEN": fmt.Sprint(walkLen), "PROBES": `{"class", "iface", "func"}`},
 		Simulate: fmt.Sprintf("num=%d", c.Pick(12, 150)), Depth: walkLen + 3, Seed: c.Seed, Timeout: 0})
 	if sim != nil {
 		if sim.Violated != "" {
@@ -478,7 +491,7 @@ func C12(c *Ctx) *kf.Report {
 	rep.Coverage["exhaustive"] = true
 	rep.Coverage["exhaustive_paths"] = exhaustive
 	rep.Coverage["paths_via_HotHandler"] = hotPaths
-	rep.Coverage["rule"] = fmt.Sprintf("all paths of length <= %d of the TempVM state graph (1 base + 2 temps, names {A,B}, <= %d definitions) replayed on real VMs with the resolve table of every live VM compared after every step (Go API) and at the end of each path (scripts); plus TLC -simulate walks of length %d over 4 temps / 8 names compared after every step at both levels; non-trivial = a temp definition made while another temp VM is alive", depth, maxDefs, walkLen)
+	rep.Coverage["rule"] = fmt.Sprintf("all paths of length <= %d of the TempVM state graph (1 base + 2 temps, names {A,B}, <= %d definitions) replayed on real VMs -- steps are define / new / discard / probe (use of a class name on a VM, found or not; in the walks also interface and function names) -- with the resolve table of every live VM compared after every step (Go API) and at the end of each path (scripts); plus TLC -simulate walks of length %d over 4 temps / 8 names compared after every step at both levels; non-trivial = a temp definition made while another temp VM is alive", depth, maxDefs, walkLen)
 	if len(samples) == 0 {
 		samples = append(samples, "none")
 	}
